@@ -21,7 +21,11 @@ const SITES: [(FaultSite, &str); 4] = [
     (FaultSite::Seek, "seek"),
 ];
 
-const KINDS: [(std::io::ErrorKind, &str); 4] = [
+/// (UnexpectedEof is used at every site but `read`: from a block read it IS the end-of-file
+/// signal of `read_exact`, not a failure; from a listing, an open or a seek it is a failure like
+/// any other)
+const KINDS: [(std::io::ErrorKind, &str); 5] = [
+    (std::io::ErrorKind::UnexpectedEof, "UnexpectedEof"),
     (std::io::ErrorKind::PermissionDenied, "PermissionDenied"),
     (std::io::ErrorKind::Other, "Other"),
     (std::io::ErrorKind::Interrupted, "Interrupted"),
@@ -154,10 +158,16 @@ pub fn cmd(args: &Args) {
             }
             for k in 0..baseline.counts[site_idx] {
                 for forever in [false, true] {
+                    let usable: Vec<&(std::io::ErrorKind, &str)> = KINDS
+                        .iter()
+                        .filter(|(kind, _)| *site_name != "read" || *kind != std::io::ErrorKind::UnexpectedEof)
+                        .collect();
                     let kinds: Vec<&(std::io::ErrorKind, &str)> = if all_kinds {
-                        KINDS.iter().collect()
+                        usable
                     } else {
-                        vec![&KINDS[(k + site_idx + forever as usize) % KINDS.len()]]
+                        // two kinds per call in the quick tier, rotating
+                        let first = (k + site_idx + forever as usize) % usable.len();
+                        vec![usable[first], usable[(first + 2) % usable.len()]]
                     };
                     for (kind, kind_name) in kinds {
                         if stop {
